@@ -1379,7 +1379,9 @@ func (h *H) RenameAt(oldName string, newDir p9.File, newName string) (err error)
 			if !n.Mode.IsDir() {
 				return linux.EISDIR
 			}
-			if len(ex.Children) > 0 && !h.fs.Recursive {
+			if len(ex.Children) > 0 && (!h.fs.Recursive || isAncestor(ex, sd)) {
+				// even a backend that replaces non-empty directories cannot
+				// replace a directory by something that lives inside it
 				return linux.ENOTEMPTY
 			}
 		} else if n.Mode.IsDir() {
